@@ -54,3 +54,33 @@ Theorem C17_every_request_answered : forall q,
   /\ (forall nop subs, answered (move_scp q nop subs)).
 Proof. exact all_answered_for. Qed.
 Print Assumptions C17_every_request_answered.
+
+(* ---- the context a request is served on (AssociationAcceptor._loop, Model/Dispatch.v): the context handed to the
+   service - on which every provider sends its responses (C17_echo ... C17_move) - is the one the message arrived on *)
+From PND Require Import Model.Negotiation Model.Dispatch Proofs.DispatchProofs.
+
+Theorem C17_served_on_arrival_context : forall served t pc uid i sop ts,
+  dispatch served t pc uid = Some (i, sop, ts) -> i = pc /\ In (pc, sop, ts) t /\ mem_b uid served = true.
+Proof. exact dispatch_on_arrival. Qed.
+Print Assumptions C17_served_on_arrival_context.
+
+Theorem C17_served_iff : forall served t pc uid,
+  (exists e, dispatch served t pc uid = Some e) <-> (In pc (map e_id t) /\ mem_b uid served = true).
+Proof. exact dispatch_iff. Qed.
+Print Assumptions C17_served_iff.
+
+(* the same abstract syntax accepted on several contexts (one per transfer syntax): the service gets what was accepted
+   for the context of arrival *)
+Theorem C17_same_class_on_several_contexts : forall served t pc uid sop ts sop' ts',
+  NoDup (map e_id t) -> In (pc, sop', ts') t -> dispatch served t pc uid = Some (pc, sop, ts) -> sop = sop' /\ ts = ts'.
+Proof. exact dispatch_unique. Qed.
+Print Assumptions C17_same_class_on_several_contexts.
+
+(* composed with C09: a request is served only on a context the acceptor reported as accepted, for the abstract syntax
+   proposed on it and with the transfer syntax answered *)
+Theorem C17_served_context_was_accepted : forall cfg ps served pc uid i sop ts,
+  dispatch served (served_table ps (answers cfg ps)) pc uid = Some (i, sop, ts) ->
+  i = pc /\ exists p, In p ps /\ p_id p = pc /\ p_abs p = sop /\ an_result (answer_one cfg p) = 0
+                      /\ an_ts (answer_one cfg p) = ts.
+Proof. exact served_request_was_accepted. Qed.
+Print Assumptions C17_served_context_was_accepted.
